@@ -185,8 +185,12 @@ def check_C10(run):
     cut = [l for l in f6 if json.loads(l)["segs"] == [1] and json.loads(l)["frames"][0]["nb"] == 2]
     cl = cut if thorough else sample(run, cut, 6)
     replay_validate(run, cl, ["conn", "-allcuts"], "ConnTrace", conn_trace_cfg(), "C10 client stops at every byte offset of the first frame", nontrivial=nt, shards=min(16, len(cl)))
+    # a complete application: the repository's certification service (generated stubs + its handlers + Service.Listen) as a
+    # separate process; no well-typed call, legal null, full table or unusual flag may end the process or the connection
+    from props_cert import cert_stage
+    cert_stage(run, [("hostile", 10, 40, 160), ("wild", 12, 30, 160)], "C10")
     run.write_evidence("model_checking",
-        "streams = TLC-enumerated family F6 of spec/ConnScen.tla (valid calls, null, invalid JSON, non-objects, wrong member types, empty frame, partial trailing frame; up to 2 frames; all compositions into writes; client half-closes or aborts after any symbol); F8: a more-call answered cont, pause, cont, cont, cont, final whose client has vanished meanwhile - a write to a vanished peer may be accepted at most once more (LostCap), then the handler is told; byte-level: the cut inside the first frame placed at every byte offset; non-trivial = the client ended the stream (every scenario)",
+        "certification service: histories of spec/CertGen.tla (modes hostile / wild) against the program built from the working tree, judged by CertTrace.tla (StaysUp, every call answered as Cert.tla computes); streams = TLC-enumerated family F6 of spec/ConnScen.tla (valid calls, null, invalid JSON, non-objects, wrong member types, empty frame, partial trailing frame; up to 2 frames; all compositions into writes; client half-closes or aborts after any symbol); F8: a more-call answered cont, pause, cont, cont, cont, final whose client has vanished meanwhile - a write to a vanished peer may be accepted at most once more (LostCap), then the handler is told; byte-level: the cut inside the first frame placed at every byte offset; non-trivial = the client ended the stream (every scenario)",
         exhaustive=thorough, assumptions=CONN_ASSUME + ["ambiguous JSON (duplicate or case-variant keys) follows encoding/json and is not generated"])
 
 
